@@ -1270,6 +1270,13 @@ func init() {
 			ns := pick(c, 4, 5)
 			c.Cov.Bound["stale_claims"] = fmt.Sprintf("BFS over block histories N<=%d with one undo and one Verify(remember) transition; Stump, Pollard, MapPollard full/partial TR 0,63; every honest proof of the neighbouring state", ns)
 			BFS(c, &HistFamily{Nmax: ns, Insts: stdInsts([]uint8{0, 63}, []string{"all", "none"}), Or: HistOracle{Stale: true, Prop: "C03"}, UndoBud: 1, VerBud: 1}, 0)
+			// the same with remembered INTERNAL nodes: the one Verify(remember) may be a true claim about an internal
+			// node (partial map forests), and every internal node of the neighbouring state is offered as well, also
+			// through VerifyPartialProof
+			if !c.Expired() {
+				c.Cov.Bound["stale_claims_nodes"] = fmt.Sprintf("the same, N<=%d, Verify(remember) also of one internal node, claims about leaf sets and internal nodes, Verify and VerifyPartialProof", ns)
+				BFS(c, &HistFamily{Nmax: ns, Insts: stdInsts([]uint8{0, 63}, []string{"all", "none"}), Or: HistOracle{Stale: true, Prop: "C03"}, UndoBud: 1, VerBud: 1, NodeVer: true}, 0)
+			}
 		}
 	}
 
